@@ -20,7 +20,62 @@ def prepare(case, policy=None):
     if len(case) > 2 and case[2] == "late-ports":
         ad["build"] = "late-ports"
     n = design.build_netlist(ad)
+    if len(case) > 2 and case[2] == "after-refused-edits":
+        refused_prelude(n)
     return ad, n
+
+
+def refused_prelude(n):
+    """Not from the initial state: a battery of editing calls that must all be refused (a bulk call one of whose
+    members is foreign - listed after the legal ones -, a duplicate name, an element that lives elsewhere, a pin
+    that is already connected, a re-point to a cell of another shape).  Returns how many were refused; the design
+    is what it was before - that is C14's business, here the property's own oracle simply runs on what is there."""
+    s = core.sdn()
+    fx = s.Instance(name="zz_foreign")
+    fp = s.Port(name="zz_foreign")
+    fpin = fp.create_pin()
+    fc = s.Cable(name="zz_foreign")
+    fw = fc.create_wire()
+    fw.connect_pin(fpin)
+    wide = s.Definition(name="zz_wide")
+    wide.create_port(name="only", pins=5)
+    calls = []
+    defs = [d for lib in n.libraries for d in lib.definitions]
+    for d in defs:
+        kids, ports, cables = list(d.children), list(d.ports), list(d.cables)
+        if kids:
+            calls.append(lambda d=d, x=kids[0]: d.remove_children_from([x, fx]))
+            calls.append(lambda d=d, x=kids[0]: d.create_child(name=x.name, reference=x.reference))
+            calls.append(lambda x=kids[0]: setattr(x, "reference", wide))
+            other = next((o for o in defs if o is not d and o.children), None)
+            if other is not None:
+                calls.append(lambda d=d, o=other: d.add_child(list(o.children)[0]))
+        if ports:
+            calls.append(lambda d=d, p=ports[0]: d.remove_ports_from([p, fp]))
+            calls.append(lambda d=d, p=ports[0]: d.create_port(name=p.name, pins=1))
+            if ports[0].pins:
+                calls.append(lambda p=ports[0]: p.remove_pins_from([p.pins[0], fpin]))
+        if cables:
+            calls.append(lambda d=d, c=cables[0]: d.remove_cables_from([c, fc]))
+            calls.append(lambda d=d, c=cables[0]: d.create_cable(name=c.name, wires=1))
+            if cables[0].wires:
+                calls.append(lambda c=cables[0]: c.remove_wires_from([c.wires[0], fw]))
+            for c in cables:
+                for w in c.wires:
+                    if w.pins:
+                        calls.append(lambda w=w: w.disconnect_pins_from([w.pins[0], fpin]))
+                        calls.append(lambda w=w: fw.connect_pin(w.pins[0]))
+                        break
+                else:
+                    continue
+                break
+    refused = 0
+    for call in calls:
+        try:
+            call()
+        except Exception:
+            refused += 1
+    return refused, len(calls)
 
 
 def key_of(case, n):
